@@ -94,7 +94,7 @@ func sessionC15Engine(t *tape.Tape, res *core.RunResult, k *Kernel) *core.RunRes
 		if len(got) >= horizon {
 			break
 		}
-		ps := k.Parked()
+		ps := k.RunnableParked()
 		if len(ps) == 0 {
 			return fail("search-does-not-end", "the analysis neither runs nor ends")
 		}
@@ -115,7 +115,7 @@ func sessionC15Engine(t *tape.Tape, res *core.RunResult, k *Kernel) *core.RunRes
 				st = tk
 			}
 		}
-		if st == nil || st.Point == GatePoint {
+		if st == nil || st.Point == GatePoint || !k.Runnable(st) {
 			break
 		}
 		k.Release(st, 0)
@@ -180,7 +180,7 @@ func sessionC15Engine(t *tape.Tape, res *core.RunResult, k *Kernel) *core.RunRes
 			ps := k.Parked()
 			var run []*Task
 			for _, tk := range ps {
-				if tk.Point == "engine.lock" && k.LockHeld() {
+				if !k.Runnable(tk) {
 					continue
 				}
 				run = append(run, tk)
